@@ -45,3 +45,29 @@ Example C06_readonly_semantics :
   sat (md_req (mkBOpts false true)) (JObj [("id", JStr "x")]) = true /\
   sat md_plain (JObj []) = false /\ sat md_plain (JObj [("id", JStr "x")]) = true.
 Proof. vm_compute. repeat split. Qed.
+
+(* ---- application/x-www-form-urlencoded bodies (Model/FormBody.v; tied to UrlencodedBodyDecoder by its
+   own case stream) ---- *)
+From KV Require Import Model.Request Model.ParamCodec Model.FormBody Proofs.FormProofs.
+(* the decoder returns the object the form stands for: for every flat object schema (primitive and
+   array-of-primitive properties, any number of them) and every non-empty form whose carried declared
+   properties are values of their schemas - each property is read through the query-parameter decoder
+   (style form, exploded), so this is the C05 round trip once per property, and what one property
+   decodes to depends on its own key only *)
+Theorem C06_form_decode_reads_value :
+  forall pi64 pi32 pf c n o a l it props ap fields m,
+    is_type c "object" = true -> existsb (fun kp => bad_prop (snd kp)) props = false -> fields <> [] ->
+    form_value pi64 pi32 pf props fields = Some m ->
+    form_decode pi64 pi32 pf (Sch c n o a l it props ap) (form_of fields) = Some m.
+Proof. exact form_decode_reads_value. Qed.
+Print Assumptions C06_form_decode_reads_value.
+(* a test, not a theorem: a form with a number, a repeated key, an undeclared field and an absent property *)
+Example C06_form_example :
+  let prim t := Sch (mkCore (Some [t]) [] false false false false "" false false false None None None 0 None "" 0 None [] 0 None None) None [] [] [] None [] None in
+  let arr t := Sch (mkCore (Some ["array"]) [] false false false false "" false false false None None None 0 None "" 0 None [] 0 None None) None [] [] [] (Some (prim t)) [] None in
+  let s := Sch (mkCore (Some ["object"]) [] false false false false "" false false false None None None 0 None "" 0 None [] 0 None None) None [] [] [] None
+               [("n", prim "integer"); ("s", prim "string"); ("tags", arr "string"); ("x", prim "number")] None in
+  let pint := fun t => if String.eqb t "42" then Some 42%Z else None in
+  form_decode pint pint (fun _ => None) s (form_of [("n", FPrim "42"); ("tags", FArr ["a"; "b"]); ("zz", FPrim "1")])
+  = Some [("n", PI64 42); ("tags", PA [PS "a"; PS "b"])].
+Proof. vm_compute. reflexivity. Qed.
